@@ -84,6 +84,8 @@ type sched struct {
 	// last - the driver may finish calls in any order, and its completion may depend on the others
 	// (a row lock held by them): nobody else's progress may depend on the victim's completion
 	holdBack    bool
+	holdTx      bool        // the victim is a statement executed inside a transaction (which holds its connection meanwhile)
+	cancelTick  map[int]int // worker -> logical time at which the controller cancelled its context
 	victim      *gate
 	lastDump    []string
 	rowErr      map[int]error // error of the worker's last Row() finisher
@@ -103,7 +105,7 @@ type sched struct {
 func newSched(r *core.Rand, total int) *sched {
 	return &sched{r: r, total: total, changed: make(chan struct{}, 1), goids: map[int64]int{},
 		prepNonTx: map[string]int{}, prepTx: map[string]int{}, prepFailed: map[string]int{}, evicted: map[string]int{},
-		badconn: map[int]int{}, badconnHit: map[int]bool{}}
+		badconn: map[int]int{}, badconnHit: map[int]bool{}, cancelTick: map[int]int{}}
 }
 
 func (s *sched) signal() {
@@ -162,6 +164,17 @@ func (s *sched) parkW(worker int, kind, query string, tx bool) error {
 	s.mu.Unlock()
 	s.signal()
 	return <-g.release
+}
+
+// failed: a preparation issued for a worker failed at database/sql (e.g. the caller's context had ended): like an
+// injected failure it must not be cached, the text may be prepared again in the same generation
+func (s *sched) failed(ctx context.Context, query string, err error) {
+	if err == nil || s.workerOf(ctx) == 0 {
+		return
+	}
+	s.mu.Lock()
+	s.prepFailed[query]++
+	s.mu.Unlock()
 }
 
 func (s *sched) note(what, query string, err error) {
@@ -379,7 +392,7 @@ func (s *sched) run(ctl []ctlAction) (stuck string) {
 			s.mu.Lock()
 			if s.victim == nil {
 				for _, g := range s.parked {
-					if (g.kind == "stmt-exec" || g.kind == "stmt-query") && !g.tx {
+					if (g.kind == "stmt-exec" || g.kind == "stmt-query") && g.tx == s.holdTx {
 						s.victim = g
 						s.trace = append(s.trace, "held back until the end: "+g.String())
 						break
@@ -515,6 +528,9 @@ func (s *sched) describeStuck() string {
 	}
 	var blocked []string
 	for _, g := range strings.Split(dump, "\n\n") {
+		if strings.Contains(g, "c14.(*sched).parkW") {
+			continue // parked by the scheduler (a held-back call), not blocked in the cache
+		}
 		if strings.Contains(g, "gorm.io/gorm.(*PreparedStmt") && (strings.Contains(g, "chan receive") || strings.Contains(g, "sync.Mutex") || strings.Contains(g, "sync.RWMutex") || strings.Contains(g, "semacquire") || strings.Contains(g, "select")) {
 			lines := strings.Split(g, "\n")
 			keep := []string{lines[0]}
